@@ -1,12 +1,17 @@
 (* Proof obligations over facts regenerated from /repo on every check (Generated/SourceFacts.v,
-   written by harness/cmd/facts).  Topic: chan_merge.  When an edit of the sources changes a fact, the
-   lemma below stops compiling; the checks of the properties that depend on this topic then report
+   written by harness/cmd/facts).  Topic: chan_merge.  The facts are semantic summaries (orders, literal
+   sets, capacity classes, parent classes of contexts, lock events per path), so a behaviour-
+   preserving rewrite regenerates the same facts; when an edit changes what the theorems rest on,
+   the lemma below stops compiling, the checks of the properties that depend on this topic report
    the broken obligation by name and search for a failing input. *)
 From Coq Require Import List String ZArith Bool.
 Import ListNotations.
 Require Import Verif.Common.LockEv Verif.Generated.SourceFacts.
+
 Open Scope string_scope.
 
-(* both result channels of parallelMerge have one slot per worker (Fanout: cap >= n) *)
-Lemma parallel_merge_channels_ok : chans_parallelMerge = [("parts", "len(next)"); ("failed", "len(next)")].
-Proof. reflexivity. Qed.
+(* both result channels of parallelMerge are buffered with one and the same non-literal capacity
+   expression (one slot per worker: Fanout cap >= n); that this expression is the number of
+   workers is what the leak detection of the C04 generator observes *)
+Lemma parallel_merge_channels_ok : same_expr_caps 2 chans_parallelMerge = true.
+Proof. vm_compute; reflexivity. Qed.
